@@ -1,6 +1,6 @@
 (* Properties_C19.v — the theorems that decide property C19 on the model, each stated in full and closed by
    `exact <lemma>`; the lemmas live in the Proofs_*.v files.  Nothing else belongs in this file. *)
-From Theo Require Import Base VMModel VMSpec VMStatements Proofs_VM_mem.
+From Theo Require Import Base VMModel VMSpec VMStatements Proofs_VM_mem CompiledStatements Regex Tokens Errors Lexer Scan MacroExtract Grammar LR MacroApply Parser VMCheck VMCheckStatements GenModel Compile Gen_Lexer Gen_Consts CompileStatements Proofs_Compiled.
 Local Open Scope Z_scope.
 
 Theorem C19_step :
@@ -22,3 +22,12 @@ Theorem C19_refuted_at_pinned :
     zlen (data s) <> sum_sizes (stack s).
 Proof. exact C19_refuted_at_pinned_proof. Qed.
 Print Assumptions C19_refuted_at_pinned.
+
+Theorem C19_compiled :
+  forall files main c h fuel s,
+    compile files main = Ok c -> cr_ok c = true -> run_hist fuel h (init (cr_prog c)) = Ok s ->
+    tiled (stack s) (zlen (data s)) /\
+    zlen (data s) = sum_sizes (stack s) /\
+    zlen (data s) <= zlen (stack s) * max_frame (cr_prog c).
+Proof. exact C19_compiled_proof. Qed.
+Print Assumptions C19_compiled.
